@@ -675,3 +675,4 @@ def replay(case):
         _drop_static_root()
 
 MANIFEST['text'] += ' Kinds include header values of equal value and different type, and one URL failing for request-specific reasons with a JSON client.'
+MANIFEST['text'] += ' Prepared answer objects carrying cookies, request methods that change at every repetition, and what a request says about its client (auth, proxies, script name, attributes put on the request) are request kinds of their own.'
